@@ -6,6 +6,7 @@ import (
 	"fmt"
 	"io"
 	"net/http"
+	"sync"
 
 	"github.com/failsafe-go/failsafe-go"
 	"github.com/failsafe-go/failsafe-go/internal/util"
@@ -105,6 +106,26 @@ func doRequest(request *http.Request, executor failsafe.Executor[*http.Response]
 	})
 }
 
+// attemptBody is one attempt's view of a request body that is shared by all attempts.
+type attemptBody struct {
+	mtx      *sync.Mutex
+	reader   io.Reader
+	detached bool // Guarded by mtx
+}
+
+func (b *attemptBody) Read(p []byte) (int, error) {
+	b.mtx.Lock()
+	defer b.mtx.Unlock()
+	if b.detached {
+		return 0, io.EOF
+	}
+	return b.reader.Read(p)
+}
+
+func (b *attemptBody) Close() error {
+	return nil
+}
+
 // cancelOnCloseBody releases a request's merged context when the response body is closed.
 type cancelOnCloseBody struct {
 	io.ReadCloser
@@ -139,9 +160,20 @@ func bodyReader(untypedBody any) (func() (io.Reader, error), error) {
 		}, nil
 
 	case io.ReadSeeker:
+		// The transport may still read from an attempt's request body after the attempt has returned, such as when it
+		// checks for data beyond the ContentLength. Since all attempts share the one reader, each attempt reads through its
+		// own attemptBody, which is detached when the reader is rewound for the next attempt.
+		var mtx sync.Mutex
+		var current *attemptBody
 		return func() (io.Reader, error) {
+			mtx.Lock()
+			defer mtx.Unlock()
+			if current != nil {
+				current.detached = true
+			}
 			_, err := body.Seek(0, 0)
-			return io.NopCloser(body), err
+			current = &attemptBody{mtx: &mtx, reader: body}
+			return current, err
 		}, nil
 
 	case io.Reader:
